@@ -154,6 +154,15 @@ def run(F, R):
                 if any(any(k == "field" and (".types" in x or ".implements" in x) for k, x in trace(b, p.args[0])[0]) for p in lookups if p.args):
                     bad.append(sbb)
             key = re.sub(r"\{impl#\d+\}", "{impl}", b.defp.replace("async_graphql::dynamic::", ""))
+            # argument roles: add_implements(ty = this type's own name, interface = an element of its `implements`)
+            o1, _ = trace(b, c.args[1])
+            o2, _ = trace(b, c.args[2])
+            own = any(k == "field" and ".name" in x and ".implements" not in x for k, x in o1) or (c.args[1][0] in ("c", "m") and ".name" in c.args[1][1])
+            impl_ = any(k == "field" and ".implements" in x for k, x in o2) or any(k == "call" for k, x in o2)
+            swapped = any(k == "field" and ".name" in x and ".implements" not in x for k, x in o2) and not any(k == "field" and ".name" in x and ".implements" not in x for k, x in o1)
+            R.check(own and not swapped, "R18.8", "add_implements-argument-roles:" + key, c.where(), "add_implements(self.name, interface)",
+                    "add_implements is called with its arguments swapped (the interface as the implementing type): __Type.interfaces and the SDL show the relation in "
+                    "the wrong direction")
             R.check(not bad, "R18.8", "add_implements-unconditional:" + key, c.where(), "not guarded by a registry lookup",
                     "add_implements is only called when the interface is already in the registry: an object registered before its interface never records the relation, so "
                     "__Type.interfaces and the SDL omit it while possibleTypes lists it")
